@@ -70,16 +70,17 @@ PROPS["C18"] = {
 }
 
 PROPS["C16"] = {
-    "imports": ["NsyncVerif.Props.C16Buffer", "NsyncVerif.Props.C01"],
+    "imports": ["NsyncVerif.Props.C16Buffer", "NsyncVerif.Props.C16Observer", "NsyncVerif.Props.C01"],
     "theorems": ["NsyncVerif.Emit." + t for t in ["C16_buffer", "C16_cstr_unique", "C16_mu_debug_state", "C16_cv_debug_state"]] +
+                ["NsyncVerif.Props.C16Observer.C16_mu_observer", "NsyncVerif.Props.C16Observer.C16_shares_untouched", "NsyncVerif.Props.C16Observer.spinOnly_spec"] +
                 ["NsyncVerif.Props.C01.C01_exclusion", "NsyncVerif.Props.C01.C01_word_agrees"],
     "layers": ["mux"],
     "pure": [{"name": "emit_gen", "dir": "emit", "flavours": [""], "layer": "emit"}],
     "oracles": {"mismatch", "debug-buffer", "exclusion", "exclusion-ann", "panic", "stuck", "crash"},
     "plan": {"quick": [("debug", 150, 8)], "thorough": [("debug", 1500, 16)]},
     "extra_corpus": ["C01"],
-    "level_text": "Buffer half: kernel-checked theorem C16_buffer over the Emit model (emit_init/emit_c/emit_print of debug.c) for every n (incl. 0 and negative) and every NUL-free character stream: writes only inside buf[0..n-1], NUL-terminated for n>=1, ends in '...' when truncated and n>=4, untruncated output is exact; tied by a differential run of the real debug.c (canaries around the buffer, all n in -1..80, states with 0..3 queued waiters). Observer half: a debug caller's writes to the mutex word are spinlock-only transitions in the MuX protocol, whose exclusion theorem (C01) quantifies over programs containing them; tied by lockstep replay of debug-family scenarios plus exclusion/progress oracles.",
-    "level_note": "Observer half is proved for the lock bits and the spinlock bit (MuX); that a debug caller leaves the hint bits (wake-up bookkeeping) untouched is checked by lockstep (the acceptor rejects any debug write that is not a spinlock-only change) and by the progress oracle, not yet by a theorem over the hint-bit semantics. emit_print's varargs formatting is modelled for %s and %i only (all that debug.c uses).",
+    "level_text": "Buffer half: kernel-checked theorem C16_buffer over the Emit model (emit_init/emit_c/emit_print of debug.c) for every n (incl. 0 and negative) and every NUL-free character stream: writes only inside buf[0..n-1], NUL-terminated for n>=1, ends in '...' when truncated and n>=4, untruncated output is exact; tied by a differential run of the real debug.c (canaries around the buffer, all n in -1..80, states with 0..3 queued waiters). Observer half (mutex): in the MuX protocol a debug-state call is an `observe` call whose only admitted writes toggle MU_SPINLOCK and nothing else; C16_mu_observer proves that a step of an observing thread changes no owner, no client-visible holder, no lock bit and none of the six hint bits (the wake-up bookkeeping), for every reachable state and interleaving, and C01's exclusion theorem quantifies over programs containing observers; tied by lockstep replay of debug-family scenarios (the acceptor rejects any other write by a debug caller — this is how F1 was found) plus exclusion/progress oracles. The cv debug functions are covered by lockstep through the progress oracle (and by the Cv layer once it lands).",
+    "level_note": "Observer half: 'never loses a wake-up / never deadlocks' is proved as 'touches nothing but the spinlock bit' (mutex); the liveness consequence (other threads' progress is unaffected) relies on C02's invariants, which are stated for programs without debug calls — the spinlock is released after finitely many own steps (no loop between the two CASes except the printing). emit_print's varargs formatting is modelled for %s and %i only (all that debug.c uses).",
 }
 
 PROPS["C17"] = {
